@@ -26,6 +26,7 @@ import (
 
 	"github.com/nspcc-dev/neo-go/pkg/core/native/nativehashes"
 	"github.com/nspcc-dev/neo-go/pkg/core/transaction"
+	"github.com/nspcc-dev/neo-go/pkg/crypto/hash"
 	"github.com/nspcc-dev/neo-go/pkg/io"
 	"github.com/nspcc-dev/neo-go/pkg/neotest"
 	"github.com/nspcc-dev/neo-go/pkg/smartcontract/callflag"
@@ -53,9 +54,11 @@ type engine struct {
 	mu     sync.Mutex
 	comp   map[string]*compRow
 	vio    map[string]int
+	allVio map[string]int // every violating (op, flags, path), also those not reported one by one
 	states *vk.Set
 	execs  vk.Counter
 	halts  vk.Counter
+	byFlag [16][2]vk.Counter // HALT, FAULT per flag set
 }
 
 // flagCase identifies one execution (replay detail).
@@ -77,28 +80,38 @@ func (en *engine) build(s *opSpec, path string, combo []argv, f int) (script []b
 	w := en.w
 	switch path {
 	case "direct": // entry(All) -> Self.Method with flags f
-		return callScript(s.Self, s.Method, f, vals(combo)...), fAll, []util.Uint160{s.Self}, true
+		self = []util.Uint160{s.Self}
+		if hasFrag(combo) {
+			// the entry script (all flags) itself calls CryptoLib to produce the interop argument
+			self = append(self, nativehashes.CryptoLib)
+		}
+		return callScript(s.Self, s.Method, f, vals(combo)...), fAll, self, true
 	case "viaA": // entry(All) -> UA.run with flags f -> Self.Method requesting All
 		if hasFrag(combo) {
 			return nil, 0, nil, false
 		}
 		prog := []any{[]any{chainx.OpCall, s.Self.BytesBE(), s.Method, 15, vals(combo)}}
 		return callScript(w.UA, "run", f, prog), fAll, []util.Uint160{w.UA}, true
-	case "viaAreq": // entry(All) -> UB.run(All) -> Self.Method requesting f
+	case "viaAreq": // entry(All) -> UA.run(All) -> Self.Method requesting f
 		if hasFrag(combo) {
 			return nil, 0, nil, false
 		}
 		prog := []any{[]any{chainx.OpCall, s.Self.BytesBE(), s.Method, f, vals(combo)}}
-		return callScript(w.UB, "run", 15, prog), fAll, []util.Uint160{w.UB, s.Self}, true
+		driver := w.UA // so that arguments naming UA as the account pass the witness check
+		if s.Self == w.UA {
+			driver = w.UB
+		}
+		return callScript(driver, "run", 15, prog), fAll, []util.Uint160{driver, s.Self}, true
 	case "u": // entry(All) -> UA.run with flags f, one op
-		return callScript(w.UA, "run", f, []any{combo[0].V}), fAll, []util.Uint160{w.UA}, true
+		return callScript(w.UA, "run", f, combo[0].V), fAll, []util.Uint160{w.UA}, true
 	case "entry": // the raw system call in an entry script loaded with f
-		return s.Raw(combo), f, nil, true
+		raw := s.Raw(combo)
+		return raw, f, []util.Uint160{hash.Hash160(raw)}, true
 	}
 	panic("path " + path)
 }
 
-func callEffect(e *effects, self []util.Uint160) bool {
+func callEffect(e *effects, self []util.Uint160, lax bool) bool {
 	in := func(h util.Uint160) bool {
 		for _, s := range self {
 			if s == h {
@@ -113,7 +126,31 @@ func callEffect(e *effects, self []util.Uint160) bool {
 		}
 	}
 	for h, n := range e.inv {
-		if !in(h) || n > 1 {
+		if !in(h) || (n > 1 && !lax) {
+			return true
+		}
+	}
+	return false
+}
+
+// onlyDeployedExtra: every context outside self is a deployed (non-native) contract.
+func (en *engine) onlyDeployedExtra(e *effects, self []util.Uint160) bool {
+	n := 0
+	for h := range e.ctxs {
+		if slicesContains(self, h) {
+			continue
+		}
+		n++
+		if h != en.w.UA && h != en.w.UB && h != en.w.R.Hash {
+			return false
+		}
+	}
+	return n > 0
+}
+
+func slicesContains(s []util.Uint160, h util.Uint160) bool {
+	for _, x := range s {
+		if x == h {
 			return true
 		}
 	}
@@ -122,6 +159,7 @@ func callEffect(e *effects, self []util.Uint160) bool {
 
 func (en *engine) violation(kind, key string, fc flagCase) {
 	en.mu.Lock()
+	en.allVio[fmt.Sprintf("%s %s %s: %s", fc.Op, fc.FName, fc.Path, fc.What)]++
 	en.vio[kind+fc.Op]++
 	en.vio[kind]++
 	a, b := en.vio[kind+fc.Op], en.vio[kind]
@@ -148,13 +186,14 @@ func (en *engine) one(s *opSpec, path string, combo []argv, f int) (viol bool) {
 			en.violation("abnormal", fmt.Sprintf("flags:%s:%s:%s", fname(f), s.Op, strings.ToLower(e.State)), fc)
 			return true
 		}
-		en.r.Outcome(fname(f) + ":FAULT")
+		en.r.Outcome("flags:FAULT")
+		en.byFlag[f][1].Inc()
 		en.states.Add(s.Op + path + fname(f) + "F")
 		return
 	}
 	en.halts.Inc()
 	wr, nt := len(e.Diff) > 0, len(e.Notifs) > 0
-	call := callEffect(e, self)
+	call := callEffect(e, self, path == "direct" && hasFrag(combo))
 	sig := []byte("---")
 	if wr {
 		sig[0] = 'w'
@@ -165,15 +204,18 @@ func (en *engine) one(s *opSpec, path string, combo []argv, f int) (viol bool) {
 	if call {
 		sig[2] = 'c'
 	}
-	en.r.Outcome(fname(f) + ":HALT:" + string(sig))
+	en.r.Outcome("flags:HALT:" + string(sig))
+	en.byFlag[f][0].Inc()
 	en.states.Add(s.Op + path + fname(f) + string(sig))
-	if f == fAll && (path == "direct" || path == "u" || path == "entry") {
+	if f == fAll && path != "viaAreq" {
+		// completeness of the menu: what the operation was seen doing with all flags
+		// (through A the call of the operation itself is not an effect of the operation)
 		en.mu.Lock()
 		row := en.comp[s.Op]
 		row.Halt = true
 		row.W = row.W || wr
 		row.N = row.N || nt
-		row.C = row.C || call
+		row.C = row.C || (call && path != "viaA")
 		en.mu.Unlock()
 	}
 	if wr && f&fW == 0 {
@@ -188,7 +230,14 @@ func (en *engine) one(s *opSpec, path string, combo []argv, f int) (viol bool) {
 	}
 	if call && f&fC == 0 {
 		fc.Sub, fc.What = "flags", "another context executed by code running without AllowCall"
-		en.violation("c", fmt.Sprintf("flags:%s:%s:called-without-AllowCall", fname(f), s.Op), fc)
+		if s.Group == "native" && path != "viaA" && en.onlyDeployedExtra(e, self) {
+			// one root cause with its own key: a native method (running without
+			// AllowCall) makes the ledger call a deployed contract (payment callback etc.)
+			fc.What = "a native method running without AllowCall caused a call of a deployed contract"
+			en.violation("nc", fmt.Sprintf("flags:native-calls-contract-without-AllowCall:%s:%s", s.Op, fname(f)), fc)
+		} else {
+			en.violation("c", fmt.Sprintf("flags:%s:%s:called-without-AllowCall", fname(f), s.Op), fc)
+		}
 		viol = true
 	}
 	if s.Safe && (wr || nt) {
@@ -219,6 +268,8 @@ type chainCase struct {
 	State string `json:"state"`
 	Fault string `json:"fault,omitempty"`
 }
+
+var chainFault vk.Counter
 
 var getFlagsScript = func() []byte {
 	bw := io.NewBufBinWriter()
@@ -290,6 +341,7 @@ func (w *world) chainOne(r *vk.Run, cc *chainCase, exact *vk.Counter) (violated 
 	cc.State, cc.Fault = e.State, e.Fault
 	if e.State != "HALT" {
 		r.Outcome(fmt.Sprintf("chain:len%d:FAULT", cc.Len))
+		chainFault.Inc()
 		return false
 	}
 	var seen []int
@@ -404,10 +456,10 @@ func TestCheck(t *testing.T) {
 	}
 	defer w.n.Close()
 	cap := vk.Pick(r, 1500, 200000)
-	en := &engine{r: r, w: w, comp: map[string]*compRow{}, vio: map[string]int{}, states: vk.NewSet()}
+	en := &engine{r: r, w: w, comp: map[string]*compRow{}, vio: map[string]int{}, allVio: map[string]int{}, states: vk.NewSet()}
 
 	// -- sub-check perm first (cheap, and it holds the suspicion to settle)
-	ps := &permStats{other: map[string]int{}}
+	ps := &permStats{other: map[string]int{}, witness: map[string]*permCase{}, rootBySub: map[string]int{}}
 	permInfo := runPerm(r, ps)
 
 	// -- sub-check chain
@@ -503,6 +555,10 @@ func TestCheck(t *testing.T) {
 	if len(missingSys) > 0 {
 		r.Violation("menu:system-calls-without-operation:"+strings.Join(missingSys, ","), map[string]any{"what": "system calls of the tree that the menu has no operation for", "names": missingSys})
 	}
+	byFlag := map[string]string{}
+	for f := 0; f < 16; f++ {
+		byFlag[fname(f)] = fmt.Sprintf("HALT %d / FAULT %d", en.byFlag[f][0].Get(), en.byFlag[f][1].Get())
+	}
 	cov := map[string]any{
 		"states":                        en.states.Len() + len(ccs) + int(ps.pure),
 		"transitions":                   int(en.execs.Get()) + chainDone + int(ps.real+ps.block),
@@ -517,6 +573,8 @@ func TestCheck(t *testing.T) {
 		"methods_with_capped_arguments": capped,
 		"executions":                    int(en.execs.Get()),
 		"executions_halted":             int(en.halts.Get()),
+		"violating_operation_flag_path": en.allVio,
+		"halt_fault_by_flag_set":        byFlag,
 		"operations_with_effect_seen_under_all_flags": effectOps,
 		"operations_never_seen_having_an_effect":       never,
 		"declared_effect_never_observed":               declGap,
@@ -524,6 +582,7 @@ func TestCheck(t *testing.T) {
 		"chain_cases":                                  len(ccs),
 		"chain_cases_done":                             chainDone,
 		"chain_exact_intersection":                     int(chainExact.Get()),
+		"chain_cases_halted":                           chainDone - int(chainFault.Get()),
 		"permission":                                   permInfo,
 		"paths":                                        "direct: entry(All)->op with f; viaA: entry->UA.run(f)->op(All); viaAreq: entry->UB.run(All)->op(f); u: entry->UA.run(f)[one op of compiled code]; entry: raw system call in an entry script loaded with f",
 		"rule":                                         "every operation x every argument combination of its menu x every path x all 16 flag sets; oracle on HALTed executions: storage diff of all contracts / notification list / executed contexts vs the flags the code ran with",
@@ -668,11 +727,21 @@ func runPerm(r *vk.Run, ps *permStats) map[string]any {
 		"real_denied":                 ps.denied,
 		"mismatches_group_root_cause": ps.rootCause,
 	}
-	if ps.first != nil {
+	info["mismatches_group_root_cause_by_subcheck"] = ps.rootBySub
+	if len(ps.witness) > 0 {
+		min := ps.witness["perm-pure"]
+		if min == nil {
+			for _, w := range ps.witness {
+				min = w
+			}
+		}
 		r.Violation("permission:group-kind-ignores-method-list", map[string]any{
-			"what":                "Permission.IsAllowed returns the group-membership test for PermissionGroup without consulting the method list (pkg/smartcontract/manifest/permission.go, case PermissionGroup)",
-			"minimal_case":        ps.first,
-			"mismatches_in_total": ps.rootCause,
+			"what":                  "a caller whose only matching permission is {contract: <group of the callee>, methods: [a list without the method]} may call the method: Permission.IsAllowed returns the group-membership test for PermissionGroup without consulting the method list (pkg/smartcontract/manifest/permission.go, case PermissionGroup)",
+			"minimal_case":          min,
+			"witness_real_call":     ps.witness["perm-real"],
+			"witness_real_block":    ps.witness["perm-block"],
+			"mismatches_in_total":   ps.rootCause,
+			"mismatches_by_subcheck": ps.rootBySub,
 		})
 	}
 	return info
@@ -727,7 +796,7 @@ func replay(r *vk.Run) {
 			os.Exit(3)
 		}
 		defer w.n.Close()
-		en := &engine{r: r, w: w, comp: map[string]*compRow{}, vio: map[string]int{}, states: vk.NewSet()}
+		en := &engine{r: r, w: w, comp: map[string]*compRow{}, vio: map[string]int{}, allVio: map[string]int{}, states: vk.NewSet()}
 		specs := w.uSpecs()
 		sys, _ := w.sysSpecs()
 		specs = append(append(append(specs, sys...), w.safeUSpecs()...), w.nativeSpecs(200000)...)
